@@ -56,6 +56,10 @@ def search(chk, r, n, max_pto):
             proj, scheme, nfff, fl = structured[i]
         za = (float(r.uniform(0, 3)), float(r.uniform(3, 7)))
         target = r.choice(TARGETS[1:] + [dict(Z=za[0], A=za[1]), dict(A=za[1], Z=za[0]), dict(A=1.0, Z=0.0), dict(A=1.0, Z=float(r.choice([0.3, 0.5]))), dict(A=2.0, Z=0.0)])
+        # explicit compositions at the edges of the documented domain (0 <= Z <= A), deterministically
+        edge = [dict(A=1.0, Z=0.0), dict(Z=0, A=2), dict(A=1.0, Z=0.5), dict(Z=2.0, A=2.0)]
+        if i < len(edge):
+            target = edge[i]
         name = f"{kind}_{fl}"
         p = [dict(x=float(r.choice([0.02, 0.1, 0.4])), Q2=float(r.choice([10.0, 100.0, 2000.0])))]
         th = cards.theory(PTO=pto_evol, PTODIS=pto, FNS=scheme, NfFF=nfff)
@@ -72,9 +76,12 @@ def search(chk, r, n, max_pto):
         if isinstance(target, str):
             from yadism.input import compatibility
 
-            tmp = dict(TargetDIS=target)
-            compatibility.update_target(tmp)
-            Z, A = tmp["TargetDIS"]["Z"], tmp["TargetDIS"]["A"]
+            if isinstance(target, dict):  # an explicit composition is its own oracle
+                Z, A = float(target["Z"]), float(target["A"])
+            else:
+                tmp = dict(TargetDIS=target)
+                compatibility.update_target(tmp)
+                Z, A = tmp["TargetDIS"]["Z"], tmp["TargetDIS"]["A"]
         else:
             Z, A = target["Z"], target["A"]
         rt, rp = ot[name][0], op[name][0]
@@ -119,9 +126,12 @@ def search_target_mass_paths(chk, r, n):
         if isinstance(target, str):
             from yadism.input import compatibility
 
-            tmp = dict(TargetDIS=target)
-            compatibility.update_target(tmp)
-            Z, A = tmp["TargetDIS"]["Z"], tmp["TargetDIS"]["A"]
+            if isinstance(target, dict):  # an explicit composition is its own oracle
+                Z, A = float(target["Z"]), float(target["A"])
+            else:
+                tmp = dict(TargetDIS=target)
+                compatibility.update_target(tmp)
+                Z, A = tmp["TargetDIS"]["Z"], tmp["TargetDIS"]["A"]
         else:
             Z, A = target["Z"], target["A"]
         worst = scale = 0.0
